@@ -317,7 +317,7 @@ def gen_keyed_cases(rng):
 
 
 def gen_cases(rng, n):
-    cases = gen_big_cases(rng) + gen_keyed_cases(rng) + gen_derived_cases(rng)
+    cases = gen_big_cases(rng) + gen_keyed_cases(rng) + gen_derived_cases(rng) + gen_shape_cases(rng)
     for k in range(n):
         with_keyed = rng.random() < 0.3
         setup = gen_setup(rng, with_keyed)
@@ -361,6 +361,52 @@ def gen_derived_cases(rng):
               "select s.x, s.c, t1.a from t1 right join (select x, 5 as c from t2) s on t1.a = s.x where t1.a is null"]:
         cases.append({"setup": setup, "sql": q, "features": ["derived-under-outer-join", "preserved-side"], "ordered": False, "nkeys": 0})
     return cases
+
+
+def gen_shape_cases(rng):
+    """Query shapes beyond the random join/where/aggregate generator: CTEs, scalar subqueries in the
+    select list, derived tables with ORDER BY / LIMIT, nested outer joins whose ON clause reads an
+    earlier padded side, aggregates over padded rows (count(col) vs count(*)), grouping by
+    expressions, HAVING on an aggregate that is not selected, DISTINCT over outer joins."""
+    setup = gen_setup(rng, False)
+    k = rng.choice([0, 1, 2])
+    qs = [
+        # CTEs (inlined by the binder: the same sub-plan may appear twice)
+        ("with c as (select a, b from t1 where b > %d) select c.a, t2.y from c join t2 on c.a = t2.x" % k, False),
+        ("with c as (select x, count(*) as n from t2 group by x) select t1.a, c.n from t1 left join c on t1.a = c.x", False),
+        ("with c as (select a from t1), d as (select a + 1 as a1 from c) select a1 from d where a1 > %d" % k, False),
+        # scalar subqueries in the select list
+        ("select a, (select count(*) from t2 where t2.x = t1.a) from t1", False),
+        ("select a, (select max(y) from t2 where t2.x = t1.a) from t1 where b is not null", False),
+        ("select a, (select count(*) from t2) from t1", False),
+        # derived tables with ORDER BY / LIMIT (the limit must stay inside)
+        ("select s.x, t1.b from (select x from t2 order by x, y limit 2) s join t1 on t1.a = s.x", False),
+        ("select s.x from (select x, y from t2 order by x, y limit 3 offset 1) s where s.y > %d" % k, False),
+        ("select count(*) from (select distinct x from t2) s", False),
+        ("select s.a, s.n from (select a, count(*) as n from t1 group by a) s where s.n > 1 or s.a is null", False),
+        # nested outer joins
+        ("select t1.a, t2.x, t3.p from t1 left join t2 on t1.a = t2.x left join t3 on t2.y = t3.p", False),
+        ("select t1.a, t2.x, t3.p from t1 left join t2 on t1.a = t2.x left join t3 on t2.x is null and t3.p = t1.a", False),
+        ("select t1.a, t2.x, t3.p from t1 full join t2 on t1.a = t2.x left join t3 on t3.p = t1.a where t2.x is null", False),
+        ("select t1.a, t2.x, t3.p from t1 left join (t2 join t3 on t2.x = t3.p) on t1.a = t2.x", False),
+        ("select t1.a, t2.x, t3.p from t1 right join t2 on t1.a = t2.x right join t3 on t3.p = t2.x", False),
+        # aggregates over padded rows
+        ("select t1.a, count(t2.x), count(*), sum(t2.y) from t1 left join t2 on t1.a = t2.x group by t1.a", False),
+        ("select count(t1.a), count(t2.x), count(*) from t1 full join t2 on t1.a = t2.x", False),
+        ("select t2.x, count(t1.a) from t1 right join t2 on t1.a = t2.x group by t2.x having count(t1.a) = 0", False),
+        ("select max(t2.y), min(t1.b) from t1 left join t2 on t1.a = t2.x where t2.x is null", False),
+        # grouping by expressions, HAVING on an unselected aggregate, DISTINCT over an outer join
+        ("select a + b, count(*) from t1 group by a + b", False),
+        ("select a from t1 group by a having sum(b) > %d" % k, False),
+        ("select a %% 2, max(b) from t1 where a is not null group by a %% 2 having count(*) >= 1", False),
+        ("select distinct t1.a, t2.x from t1 left join t2 on t1.a = t2.x", False),
+        ("select distinct t2.y from t1 full join t2 on t1.a = t2.x where t1.a is null", False),
+        # IN / EXISTS over derived tables and under outer joins
+        ("select t1.a from t1 left join t2 on t1.a = t2.x where t2.y in (select q from t3) or t2.y is null", False),
+        ("select a from t1 where exists (select 1 from t2 left join t3 on t2.x = t3.p where t2.x = t1.a and t3.p is null)", False),
+        ("select a from t1 where a not in (select x from t2 where x is not null)", False),
+    ]
+    return [{"setup": setup, "sql": q, "features": ["shape"], "ordered": o, "nkeys": 0} for q, o in qs]
 
 def result_key(case, rows):
     """what the property compares: the bag; and, for ORDER BY, the sequence (all selected
